@@ -153,6 +153,29 @@ package app
 //@   assert before SetBodyStream: rgApplied && 0 <= rgStart && rgStart <= rgEnd && rgEnd < 4611686018427387904 ==> arg2 == rgEnd - rgStart + 1
 //@   assert before ResponseHeader.SetContentLength: rgApplied && 0 <= rgStart && rgStart <= rgEnd && rgEnd < 4611686018427387904 ==> arg1 == rgEnd - rgStart + 1
 
+// C07 (virtual-host rewriter): the path it hands to the file handler contains the Host header, which no
+// normalisation has seen, so what it returns must be the URI's path as normalised again after the rewrite: the
+// slice Path() returned after SetPathBytes (vhNorm: that Path() call came after the SetPathBytes call).
+//@ ghost var vhSet bool
+//@ ghost var vhNorm bool
+//@ ghost var vhArr int
+//@ ghost var vhOff int
+//@ ghost var vhLen int
+//@ func NewVHostPathRewriter$1(ctx) r
+//@   props C07
+//@   abstract
+//@   noinline
+//@   panics
+//@   modifies vhSet, vhNorm, vhArr, vhOff, vhLen
+//@   ghostset-at-entry vhSet = false
+//@   ghostset-at-entry vhNorm = false
+//@   ghostset after URI.SetPathBytes: vhSet = true
+//@   ghostset after RequestContext.Path: vhNorm = vhSet
+//@   ghostset after RequestContext.Path: vhArr = arr(result)
+//@   ghostset after RequestContext.Path: vhOff = off(result)
+//@   ghostset after RequestContext.Path: vhLen = len(result)
+//@   top-ensures vhNorm && arr(r) == vhArr && off(r) == vhOff && len(r) == vhLen
+
 // C08 (a compressed sibling is served only while it mirrors the file): openFSFile hands the ".hertz.gz" file to
 // newFSFile only when its modification time is identical to that of the original (the handler stamps the
 // artefact with the original's time when it creates it); any difference - older or newer - re-creates it.
